@@ -79,8 +79,10 @@ type TimerFire struct {
 // TimerInfo describes one virtual timer for oracles that need to relate events to deadlines.
 type TimerInfo struct {
 	Seq         int
+	Creator     string // name of the managed thread that created the timer
 	CreatedStep int
-	Inline      bool // context deadline
+	CreatedAt   time.Duration // virtual time of creation
+	Inline      bool          // context deadline
 	Deadline    time.Duration
 	FiredStep   int // -1 while it has not fired (last firing for tickers)
 }
@@ -928,6 +930,13 @@ func Step() int {
 	return s.Steps
 }
 
+func (s *Sched) curNameLocked() string {
+	if s.cur == nil {
+		return ""
+	}
+	return s.cur.Name
+}
+
 // CurName is the name of the managed thread that is running ("" outside).
 func CurName() string {
 	s := S
@@ -961,7 +970,7 @@ func newTimer(d time.Duration, period time.Duration, fn func()) *Timer {
 	defer s.mu.Unlock()
 	s.timerSeq++
 	t := &Timer{C: make(chan time.Time, 1), when: s.now.Add(d), armed: true, seq: s.timerSeq, period: period, fn: fn, s: s}
-	t.info = &TimerInfo{Seq: t.seq, CreatedStep: s.Steps, Deadline: t.when.Sub(Epoch), FiredStep: -1}
+	t.info = &TimerInfo{Seq: t.seq, Creator: s.curNameLocked(), CreatedStep: s.Steps, CreatedAt: s.now.Sub(Epoch), Deadline: t.when.Sub(Epoch), FiredStep: -1}
 	s.TimerLog = append(s.TimerLog, t.info)
 	s.timers = append(s.timers, t)
 	return t
